@@ -30,7 +30,7 @@ TRUSTED_BASE = [
     "Lean 4.33.0 kernel; Mathlib lemmas used by the proof files",
     "axioms: subset of {propext, Classical.choice, Quot.sound} (audited by #print axioms on every run)",
     "differential correspondence harness and generators under /verif/harness, /verif/checks",
-    "from-source gcc build of /repo with stubbed third-party headers (libccd, lodepng, MC, qhull, src/xml not exercised)",
+    "from-source gcc build of /repo's working tree with stubbed third-party headers (libccd, lodepng, MC, qhull); src/xml is compiled only in the XML variant used by C32/C36/C37, against harness/stubs/tinyxml2 (a stand-in for tinyxml2, itself trusted)",
     "reals vs IEEE doubles: numeric theorems are over the reals; rounding is outside the proofs",
 ]
 
@@ -329,9 +329,22 @@ class Ctx:
         ev = {"property_id": self.pid, "tier": self.tier, "seed": self.seed, "level": "proof",
               "coverage": cov, "assumptions": TRUSTED_BASE + self.assumptions,
               "wall_s": round(time.time() - self.t0, 2), "violations": nviol}
-        os.makedirs(os.path.join(VERIF, "evidence"), exist_ok=True)
-        with open(os.path.join(VERIF, "evidence", self.pid + ".json"), "w") as f:
+        # evidence/ describes /repo itself; a run against a scratch worktree (VERIF_REPO) must not overwrite it
+        edir = os.path.join(VERIF, "evidence") if os.path.realpath(REPO) == "/repo" else \
+            os.path.join(VERIF, ".cache", "evidence_alt", os.path.basename(REPO.rstrip("/")))
+        try:
+            head = subprocess.run(["git", "-C", REPO, "rev-parse", "--short", "HEAD"], capture_output=True,
+                                  text=True).stdout.strip()
+            dirty = bool(subprocess.run(["git", "-C", REPO, "status", "--porcelain", "--untracked-files=no"],
+                                        capture_output=True, text=True).stdout.strip())
+            cov["repo"] = {"root": REPO, "head": head, "working_tree_modified": dirty}
+        except Exception:
+            pass
+        os.makedirs(edir, exist_ok=True)
+        tmp = os.path.join(edir, self.pid + ".json.%d.tmp" % os.getpid())
+        with open(tmp, "w") as f:
             json.dump(ev, f, indent=1, default=str)
+        os.replace(tmp, os.path.join(edir, self.pid + ".json"))
 
 
 def main(run, pid, uses_gen=True):
@@ -353,6 +366,14 @@ def main(run, pid, uses_gen=True):
             sys.exit(2)
     ctx = Ctx(pid, tier, seed)
     ctx.replay = a.replay
+    # drop this (property, seed)'s replay files of an earlier run so that a file on disk always belongs to the last run
+    import glob
+    for old in glob.glob(os.path.join(VERIF, "replays", "%s_*_seed%d.json" % (pid, seed))):
+        if not a.replay or os.path.realpath(old) != os.path.realpath(a.replay):
+            try:
+                os.remove(old)
+            except OSError:
+                pass
     # lean/MjProof/Gen is shared: a run against a scratch worktree (VERIF_REPO set) regenerates it from
     # that worktree, so such runs are exclusive and restore Gen from /repo before releasing the lock;
     # ordinary runs share the lock.
